@@ -75,6 +75,15 @@ a non-empty backlog is part of the result.
 R19 (async) who-may-use: the one-shot iteration guard is tested / set by
 __aiter__ alone and no other method iterates `self` (pipe / exhaust / read* are
 repeatable and work after a started iteration).
+Reading through refactorings (second preserving wave): a READ-ONLY VALUE HELPER of the reader -- a private synchronous method that
+stores no attribute (transitively), never reads the source, is made of local assignments / if / return / raise and calls only
+len / min / max, number-valued bytes methods and other such helpers -- is executed in place, once per way through it that
+returns, in front of the statement that calls it (_inline_helpers; the returned value is the value of the call, its path facts are
+the caller's): R6-R10 (stream model: parameters stand for the regions / source chunks / delimiter they are handed), R11 (a
+look-ahead `item[:k]` inside a helper that is handed the item and the delimiter) and the other path rules that go through
+_run_steps (values only) judge `self._find_on_boundary(delimiter, delimiter_len_1, next_chunk)` like the inline search it
+replaces; such a helper, when all its callers take a `delimiter`, is judged in their contexts only.  R14 reads an optional
+parameter that no call in the package passes as its default (`chunk_size or self._chunk_size` under `chunk_size=None`).
 Not decided: readlines(hint) for hint == 0 (limit vs "no limit" is a convention
 of the reference cursor, not of the arithmetic).
 """
@@ -110,6 +119,41 @@ def _stores(f):
     return out
 
 
+_NORMALISED = {}
+
+
+def _without_method_aliases(p, rd, f):
+    """f itself when it holds no bound method of the reader in a local; otherwise a copy of f (same qualified name, same source
+    positions) in which every read of such a local is `self.<method>` and the binding statement is `pass`.  Sound because the local is
+    bound by exactly one plain assignment, never stored otherwise, and no method of the class ever stores `self.<method>`."""
+    if f.nested or any(isinstance(x, (ast.FunctionDef, ast.AsyncFunctionDef, ast.Lambda, ast.ClassDef)) for x in ast.walk(f.node) if x is not f.node):
+        return f
+    aliases = rd.method_aliases(f)
+    if not aliases:
+        return f
+    key = (id(p), f.qual)
+    hit = _NORMALISED.get(key)
+    if hit is not None and hit[0] is f.node:
+        return hit[1]
+    import copy
+
+    class T(ast.NodeTransformer):
+        def visit_Assign(self, n):
+            if len(n.targets) == 1 and isinstance(n.targets[0], ast.Name) and n.targets[0].id in aliases:
+                return ast.copy_location(ast.Pass(), n)
+            return self.generic_visit(n)
+
+        def visit_Name(self, n):
+            if isinstance(n.ctx, ast.Load) and n.id in aliases:
+                return ast.copy_location(ast.Attribute(value=ast.copy_location(ast.Name(id='self', ctx=ast.Load()), n), attr=aliases[n.id], ctx=ast.Load()), n)
+            return n
+
+    node = ast.fix_missing_locations(T().visit(copy.deepcopy(f.node)))
+    g = Func(node, f.qual, f.module, f.cls, f.parent)
+    _NORMALISED[key] = (f.node, g)
+    return g
+
+
 class Reader:
     def __init__(self, p, qual):
         self.p = p
@@ -117,6 +161,11 @@ class Reader:
         self.cls = p.cls(qual)
         require_attrs(p, qual, [BUF, BLEN, BPOS, CHUNK])
         self.methods = dict(self.cls.methods)
+        # a local bound once to a bound method of the reader itself (`finalize = self._finalize_read_until` hoisted out of a loop) IS that
+        # method: every rule of this module reads a copy of such a method in which the alias is written out (`self.<m>`)
+        for n, f in list(self.methods.items()):
+            self.methods[n] = _without_method_aliases(p, self, f)
+        self.__dict__.pop('_method_aliases', None)
         self._writes = {}
         changed = True
         direct = {n: _stores(f) for n, f in self.methods.items()}
@@ -159,6 +208,46 @@ class Reader:
             c = self.__dict__['_ctor_only'] = (_stores(init) if init is not None else set()) - later
         return c
 
+    def method_aliases(self, f):
+        """{local name: method name} for the locals of method f that are bound by ONE statement `<local> = self.<method>` (a bound
+        method of the reader's own class looked up once, e.g. in front of a loop) and never stored otherwise: calling the local IS
+        calling self.<method>."""
+        c = self.__dict__.setdefault('_method_aliases', {})
+        if f.qual in c:
+            return c[f.qual]
+        cand, stores = {}, {}
+        params = set(f.params())
+        for n in walk_self(f.node):
+            if isinstance(n, ast.Name) and isinstance(n.ctx, (ast.Store, ast.Del)):
+                stores[n.id] = stores.get(n.id, 0) + 1
+            elif isinstance(n, ast.ExceptHandler) and n.name:
+                stores[n.name] = stores.get(n.name, 0) + 2
+            if isinstance(n, ast.Assign) and len(n.targets) == 1 and isinstance(n.targets[0], ast.Name) \
+                    and isinstance(n.value, ast.Attribute) and dotted(n.value.value) == 'self' and n.value.attr in self.methods \
+                    and ('self.' + n.value.attr) not in self.all_stores():
+                cand[n.targets[0].id] = n.value.attr
+        for n in ast.walk(f.node):
+            if isinstance(n, (ast.Nonlocal, ast.Global)):
+                for x in n.names:
+                    stores[x] = stores.get(x, 0) + 2
+        c[f.qual] = {k: a for k, a in cand.items() if stores.get(k) == 1 and k not in params}
+        return c[f.qual]
+
+    def all_stores(self):
+        c = self.__dict__.get('_all_stores')
+        if c is None:
+            c = self.__dict__['_all_stores'] = set().union(*[_stores(g) for g in self.methods.values()]) if self.methods else set()
+        return c
+
+    def called_method(self, f, call):
+        """Name of the reader method `call` (inside method f) invokes: `self.<m>(...)`, or `<alias>(...)` with a method alias of f."""
+        fn = call.func
+        if isinstance(fn, ast.Attribute) and dotted(fn.value) == 'self' and fn.attr in self.methods:
+            return fn.attr
+        if isinstance(fn, ast.Name) and f is not None:
+            return self.method_aliases(f).get(fn.id)
+        return None
+
     def field_aliases(self, f):
         """{local name: 'self.<attr>'} for the locals of method f that are bound by ONE statement `<local> = self.<attr>`
         with <attr> a constructor-only field (k1-c14-2: `read_func = self._read_func` looked up once in front of the
@@ -196,6 +285,12 @@ class _MemoEnv(Env):
         e = Env.fork(self)
         e.__class__ = _MemoEnv
         return e
+
+    def _call(self, e):
+        hit = self.ghost.get('inlined')
+        if hit and id(e) in hit:        # a read-only value helper whose body was executed in front of this statement (_inline_helpers)
+            return hit[id(e)][0]
+        return Env._call(self, e)
 
     def _le0(self, d, depth=3):
         if d.is_const:
@@ -1036,12 +1131,263 @@ def _bind_with(env, cfg, stmt):
         env.assign(it.optional_vars, val)
 
 
-def _run_steps(env, cfg, steps, on_node=None):
-    """linexpr.run_steps, except that an undecided conditional expression forks the path state and that a
-    with-statement binds its targets (_bind_with)."""
+# ---------------------------------------------------------------------------
+# read-only value helpers of the reader, executed in place (k2-c14-2: the search across the chunk border of the synchronous
+# _read_until moved into `self._find_on_boundary(delimiter, delimiter_len_1, next_chunk)`, which returns the match position
+# in buffer coordinates or -1)
+# ---------------------------------------------------------------------------
+_HELPER_NO = (ast.Yield, ast.YieldFrom, ast.Await, ast.Lambda, ast.ListComp, ast.SetComp, ast.DictComp, ast.GeneratorExp, ast.NamedExpr,
+              ast.Starred, ast.Global, ast.Nonlocal, ast.FunctionDef, ast.AsyncFunctionDef, ast.ClassDef)
+_HELPER_MAX_PATHS = 16
+
+
+def _value_helper(rd, call, stack=(), f=None):
+    """The callee when `call` is `self.<m>(...)` of a READ-ONLY VALUE HELPER of reader `rd`: a plain synchronous method that stores no
+    attribute of the reader (transitively), never reads the source, consists of assignments to locals / if / return / raise only, calls
+    nothing but len / min / max, the number-valued str / bytes methods (find, startswith, ...) and other such helpers, and is called with
+    call-free arguments that fit its signature.  Such a call reads the state of the reader at the point of the call and returns a value:
+    its body, executed in front of the calling statement once per way through it, is its summary."""
+    name = rd.called_method(f, call)         # (f: the method the call stands in -- a local bound once to self.<m> is that method)
+    if name is None or name == '__init__':
+        return None
+    g = rd.methods[name]
+    if g.qual in stack or len(stack) >= 2:
+        return None
+    if any(isinstance(c, ast.Call) and not (isinstance(c.func, ast.Name) and c.func.id in _PURE_CALLS) for a in list(call.args) + [k.value for k in call.keywords]
+           for c in ast.walk(a)):
+        return None
+    bound = _bind_call(g, call)
+    if bound is None or set(bound) != {a for a in g.params() if a != 'self'}:
+        return None
+    ck = rd.__dict__.setdefault('_value_helpers', {})
+    if g.qual not in ck:
+        ck[g.qual] = _is_value_helper(rd, g, stack)
+    return g if ck[g.qual] else None
+
+
+def _is_value_helper(rd, g, stack):
+    if g.is_async or g.decorators or rd.writes(g.name) or g.node.args.vararg or g.node.args.kwarg:
+        return False
+    n_ret = 0
+
+    def stmts_ok(body):
+        nonlocal n_ret
+        for st in body:
+            if isinstance(st, ast.Expr) and isinstance(st.value, ast.Constant):
+                continue
+            if isinstance(st, ast.If):
+                if not (stmts_ok(st.body) and stmts_ok(st.orelse)):
+                    return False
+            elif isinstance(st, (ast.Assign, ast.AnnAssign, ast.AugAssign)):
+                tg = st.targets if isinstance(st, ast.Assign) else [st.target]
+                if not all(isinstance(t, ast.Name) or (isinstance(t, ast.Tuple) and all(isinstance(x, ast.Name) for x in t.elts)) for t in tg):
+                    return False
+            elif isinstance(st, ast.Return):
+                if st.value is None:
+                    return False
+                n_ret += 1
+            elif not isinstance(st, (ast.Pass, ast.Raise)):
+                return False
+        return True
+
+    if not stmts_ok(g.node.body) or not n_ret:
+        return False
+    for x in walk_self(g.node):
+        if x is g.node:
+            continue
+        if isinstance(x, _HELPER_NO):
+            return False
+        if isinstance(x, ast.Attribute) and dotted(x) in (SOURCE_FN, SOURCE_IT):
+            return False
+        if isinstance(x, ast.Call):
+            if isinstance(x.func, ast.Name) and x.func.id in _PURE_CALLS:
+                continue
+            if isinstance(x.func, ast.Attribute) and dotted(x.func.value) != 'self' and x.func.attr in _INT_METHODS:
+                continue
+            if _value_helper(rd, x, stack + (g.qual,), g) is None:
+                return False
+    return True
+
+
+def _context_helpers(rd):
+    """{name: [(calling method, call)]} for the private read-only value helpers of rd whose every mention in the class is a call
+    `self.<name>(...)` that _value_helper accepts, made from another method: what they search / compute is judged where they are
+    called (executed in place with the caller's path facts), not for unconstrained parameters."""
+    c = rd.__dict__.get('_context_helpers')
+    if c is not None:
+        return c
+    uses, bad = {}, set()
+    for mn, f in rd.methods.items():
+        calls = {id(x.func): x for x in walk_self(f.node) if isinstance(x, ast.Call)}
+        aliases = rd.method_aliases(f)
+        alias_rhs = {id(n.value) for n in walk_self(f.node) if isinstance(n, ast.Assign) and len(n.targets) == 1 and isinstance(n.targets[0], ast.Name)
+                     and n.targets[0].id in aliases}
+        for x in walk_self(f.node):
+            name = None
+            if isinstance(x, ast.Attribute) and dotted(x.value) == 'self' and x.attr in rd.methods:
+                if id(x) in alias_rhs:
+                    continue                            # `<alias> = self.<m>`: the uses of the alias are judged below
+                name = x.attr
+            elif isinstance(x, ast.Name) and isinstance(x.ctx, ast.Load) and x.id in aliases:
+                name = aliases[x.id]
+            if name is None or not name.startswith('_') or name.startswith('__'):
+                continue
+            call = calls.get(id(x))
+            if call is None or mn == name or _value_helper(rd, call, (), f) is None:
+                bad.add(name)
+            else:
+                uses.setdefault(name, []).append((f, call))
+    c = rd.__dict__['_context_helpers'] = {k: v for k, v in uses.items() if k not in bad}
+    return c
+
+
+def _call_searches(rd, call, dnames=(DELIM,), depth=0, f=None):
+    """`call` (inside method f) is a delimiter search `<x>.find(delimiter, ...)`, or a call of a context helper that is handed the delimiter
+    and searches for that parameter (two levels)."""
+    fn = call.func
+    if isinstance(fn, ast.Attribute) and fn.attr == 'find' and call.args and isinstance(call.args[0], ast.Name) and call.args[0].id in dnames:
+        return True
+    name = rd.called_method(f, call)
+    if depth >= 2 or name is None or name not in _context_helpers(rd):
+        return False
+    g = rd.methods[name]
+    dps = {nm for nm, x in (_bind_call(g, call) or {}).items() if isinstance(x, ast.Name) and x.id in dnames}
+    return bool(dps) and any(isinstance(c, ast.Call) and _call_searches(rd, c, dps, depth + 1, g) for c in walk_self(g.node))
+
+
+def _searches(rd, f):
+    """Method f looks for its `delimiter` itself or through a read-only value helper it hands the delimiter to."""
+    return any(isinstance(c, ast.Call) and _call_searches(rd, c, f=f) for c in walk_self(f.node))
+
+
+def _judged_in_context(rd, f):
+    """f is a context helper all of whose callers take a `delimiter` themselves (and so are subjects of the search rules)."""
+    us = _context_helpers(rd).get(f.name)
+    return bool(us) and all(DELIM in g.params() for g, _c in us)
+
+
+class _PlainHelperModel:
+    """The rules that keep no name-keyed bookkeeping of their own: a read-only value helper that reads the buffer, searches, or is handed
+    the delimiter is executed in place (values and path facts only; the rule's own node hook is not run inside it)."""
+
+    def wants_helper(self, env, call, callee):
+        if any(isinstance(x, ast.Attribute) and dotted(x) == BUF for x in walk_self(callee.node)):
+            return True
+        if any(isinstance(x, ast.Call) and isinstance(x.func, ast.Attribute) and x.func.attr == 'find' for x in walk_self(callee.node)):
+            return True
+        for a in list(call.args) + [k.value for k in call.keywords]:
+            val = env.eval(a) if isinstance(a, (ast.Name, ast.Attribute)) else None
+            if isinstance(val, Lin) and val.lone() == ('v', DELIM):
+                return True
+        return False
+
+    def enter_helper(self, caller_env, env, bound, callee=None, call=None):
+        return None
+
+    def leave_helper(self, env, saved):
+        pass
+
+    def pieces(self, env, e):
+        return None
+
+
+_PLAIN_MODEL = _PlainHelperModel()
+
+
+def _reader_of(cfg):
+    """The Reader of the class a CFG's function belongs to (the two buffered readers only)."""
+    f, p = cfg.func, cfg.project
+    if p is None or f.cls is None or f.cls.qual not in (SYNC, ASYNC):
+        return None
+    key = (id(p), f.cls.qual)
+    hit = _READER_CACHE.get(key)
+    if hit is None or hit[0] is not p:
+        hit = _READER_CACHE[key] = (p, Reader(p, f.cls.qual))
+    return hit[1]
+
+
+_READER_CACHE = {}
+
+
+def _inline_helpers(env, cfg, n, on_node, model):
+    """The states in front of CFG node n in which every call of a read-only value helper the model wants to look into (model.wants_helper)
+    has been executed: one state per feasible way through the helper that RETURNS, the returned value remembered for the call
+    (ghost['inlined'], read by _MemoEnv._call and by the model's pieces()).  A way on which the helper raises leaves the calling
+    statement through its exceptional edge: it does not continue the path under analysis."""
+    rd = _reader_of(cfg)
+    if rd is None:
+        return [env]
     envs = [env]
+    for c in n.walk():
+        if not isinstance(c, ast.Call):
+            continue
+        stack = env.ghost.get('inline_stack', ())
+        g = _value_helper(rd, c, stack, cfg.func)
+        if g is None:
+            continue
+        envs = [e2 for e in envs for e2 in (_run_helper(e, cfg, c, g, on_node, model, stack) if model.wants_helper(e, c, g) else [e])]
+    return envs
+
+
+def _run_helper(env, cfg, call, g, on_node, model, stack):
+    gcfg = cfg_of(g, cfg.project)
+    try:
+        paths = list(paths_from(gcfg, gcfg.entry, (), local_edges(gcfg), limit=_HELPER_MAX_PATHS))
+    except UnknownIdiom:
+        return [env]                    # too many ways through it: not looked into (the call is an opaque method call, as before)
+    bound = _bind_call(g, call)
+    vals = {nm: env.eval(x) for nm, x in bound.items()}             # arguments (and constant defaults) in the caller's scope
+    caller_locals = {k: v for k, v in env.vars.items() if k != 'self' and not k.startswith('self.')}
+
+    def hook(e, nd, label):
+        if nd.kind == 'stmt' and isinstance(nd.ast, ast.Return) and label != 'exc':
+            e.ghost['returned_pieces'] = model.pieces(e, nd.ast.value)      # (a return of the helper is not a hand-out of the method)
+        elif on_node is not None and model is not _PLAIN_MODEL:
+            on_node(e, nd, label)
+
+    outs = []
+    for steps, end in paths:
+        if end != gcfg.exit:
+            continue
+        e = env.fork()
+        if type(e) is Env:
+            e.__class__ = _MemoEnv
+        for k in caller_locals:
+            del e.vars[k]
+        e.vars.update(vals)
+        n0 = len(e.log)
+        saved = model.enter_helper(env, e, bound, g, call)
+        e.ghost['inline_stack'] = stack + (g.qual,)
+        for e2 in _run_steps(e, gcfg, steps, hook):
+            new = e2.log[n0:]
+            if any(k == 'raise' for k, _v, _n in new):
+                continue
+            rets = [v for k, v, _n in new if k == 'return']
+            del e2.log[n0:]
+            for k in [k for k in e2.vars if k != 'self' and not k.startswith('self.')]:
+                del e2.vars[k]
+            e2.vars.update(caller_locals)
+            model.leave_helper(e2, saved)
+            e2.ghost['inline_stack'] = stack
+            inl = dict(e2.ghost.get('inlined') or {})
+            inl[id(call)] = (rets[-1] if rets else NONE, e2.ghost.pop('returned_pieces', None))
+            e2.ghost['inlined'] = inl
+            outs.append(e2)
+    return outs
+
+
+def _run_steps(env, cfg, steps, on_node=None):
+    """linexpr.run_steps, except that an undecided conditional expression forks the path state, that a
+    with-statement binds its targets (_bind_with) and that a read-only value helper of the reader is executed in place when
+    the model driving the path asks for it (_inline_helpers)."""
+    envs = [env]
+    model = getattr(on_node, '__self__', None)
+    if not hasattr(model, 'wants_helper'):
+        model = env.ghost.get('helper_model') or _PLAIN_MODEL
     for (nid, label) in steps:
         n = cfg.node(nid)
+        if model is not None and n.kind in ('stmt', 'test') and label != 'exc' and any(isinstance(x, ast.Call) for x in n.walk()):
+            envs = [e2 for e in envs for e2 in _inline_helpers(e, cfg, n, on_node, model)]
         if n.kind in ('stmt', 'test') and label != 'exc' and any(isinstance(x, ast.IfExp) for x in n.walk()):
             envs = [e2 for e in envs for e2 in _fork_ifexps(e, n.ast)]
         envs = [e2 for e in envs for e2 in run_steps(e, cfg, [(nid, label)], on_node)]
@@ -1203,10 +1549,53 @@ class _StreamModel:
     def buffer_end(self, env):
         return env.ghost['base'] + env.length(env.eval(_E_BUF), BUF)
 
+    # ------------------------------------------------ read-only value helpers executed in place (_inline_helpers)
+    def wants_helper(self, env, call, callee):
+        """Look into a read-only value helper when it is handed one of the values this model tracks (buffered bytes, a chunk fetched from
+        the source, the delimiter) or reads the buffer itself; any other helper's result is just a number (a fresh symbol, as before)."""
+        if {BUF, BLEN, BPOS} & self.rd.mentions(callee.name):
+            return True
+        for a in list(call.args) + [k.value for k in call.keywords]:
+            if any(p[0] in ('buf', 'src', 'opaque') for p in self.pieces(env, a)):
+                return True
+            val = env.eval(a) if isinstance(a, (ast.Name, ast.Attribute)) else None
+            if isinstance(val, Lin) and val.lone() == ('v', DELIM):
+                return True
+        return False
+
+    def enter_helper(self, caller_env, env, bound, callee=None, call=None):
+        """The name-keyed bookkeeping (regions of the buffer / source chunks held in locals, remembered comparison flags) changes scope:
+        a parameter stands for what its argument is made of."""
+        g = env.ghost
+        saved = (g.get('regions'), g.get('srcnames'), g.get('conds'), g.get('helper_model'))
+        regs, src = {}, set()
+        for nm, x in bound.items():
+            ps = self.pieces(caller_env, x)
+            if any(p[0] in ('buf', 'opaque') for p in ps):
+                regs[nm] = tuple(ps)
+            elif len(ps) == 1 and ps[0][0] == 'src' and isinstance(x, ast.Name):
+                src.add(nm)
+        g.update(regions=regs, srcnames=frozenset(src), conds={}, helper_model=self)
+        return saved
+
+    def leave_helper(self, env, saved):
+        g = env.ghost
+        g['regions'], g['srcnames'] = saved[0], saved[1]
+        for k, v in (('conds', saved[2]), ('helper_model', saved[3])):
+            if v is None:
+                g.pop(k, None)
+            else:
+                g[k] = v
+        rp = g.get('returned_pieces')
+        if rp is not None and any(p[0] == 'src' or (p[0] == 'other' and len(p) > 1) for p in rp):
+            g['returned_pieces'] = [('opaque', 'bytes of a source chunk returned by a helper')]     # (named after the helper's parameter: not followed)
+
     # ----------------------------------------------------------------- values
     def pieces(self, env, e):
         """What an expression is made of: ('buf', abs_lo, abs_hi, exact) | ('src', name) | ('const', n) | ('other',) | ('opaque', text)."""
         g = env.ghost
+        if isinstance(e, ast.Call) and g.get('inlined') and id(e) in g['inlined'] and g['inlined'][id(e)][1] is not None:
+            return list(g['inlined'][id(e)][1])                  # what the value returned by a helper executed in place is made of
         if isinstance(e, (ast.Name, ast.Attribute)):
             if dotted(e) == BUF:
                 return [('buf', g['base'], self.buffer_end(env), True)]
@@ -1836,8 +2225,8 @@ class _StreamModel:
         results = {R.lone(): (c0, org0) for (R, c0, org0, _st) in g['open']}
         for pname in sorted(pos_params):
             x = bound.get(pname)
-            if x is None or any(isinstance(c, ast.Call) for c in ast.walk(x)):
-                continue
+            if x is None or any(isinstance(c, ast.Call) and id(c) not in (env.ghost.get('inlined') or ()) for c in ast.walk(x)):
+                continue                                   # (a helper executed in place has a value)
             val = env.eval(x)
             if not isinstance(val, Lin) or val.is_const:
                 continue                                   # -1 / a constant: the "not found yet" sentinel
@@ -2026,7 +2415,7 @@ def r6_search_start(run):
         rd = Reader(run.project, qual)
         n = 0
         for name, f in sorted(rd.methods.items()):
-            if DELIM in f.params() and any(_is_delim_find(c) for c in walk_self(f.node)):
+            if DELIM in f.params() and _searches(rd, f) and not _judged_in_context(rd, f):
                 _StreamModel(run, v, rd, f, 'R6').execute()
                 n += 1
         if not n:
@@ -2057,7 +2446,7 @@ def r7_delimiter_not_split(run):
     # of a failed search: the same margin, decided like the synchronous reader's R10 (nothing is fetched between search and hand-out)
     for name, f in sorted(rd.methods.items()):
         if f not in gens and DELIM in f.params() and not any(isinstance(x, (ast.Yield, ast.YieldFrom)) for x in walk_self(f.node)) \
-                and any(_is_delim_find(c) for c in walk_self(f.node)):
+                and _searches(rd, f) and not _judged_in_context(rd, f):
             _StreamModel(run, v, rd, f, 'R10').execute()
     v.flush()
 
@@ -2114,7 +2503,7 @@ def r10_sync_delimiter_not_split(run):
         src = {n for n, g in rd.methods.items() if n != '__init__' and any(
             isinstance(x, ast.Attribute) and dotted(x) == SOURCE_FN and isinstance(x.ctx, ast.Load) for x in walk_self(g.node))}
         fetches = any(isinstance(c.func, ast.Attribute) and dotted(c.func.value) == 'self' and c.func.attr in src for c in in_loops)
-        if fetches and any(_is_delim_find(c) for c in in_loops):
+        if fetches and any(_call_searches(rd, c, f=f) for c in in_loops):
             todo.append(f)
     if not todo:
         raise AnchorError('%s: no method searches the buffer for a %s in a loop that refills it from the source' % (SYNC, DELIM))
@@ -2174,6 +2563,121 @@ def _mark_items(env, names):
             env.kind[val.lone()] = 'seq'
 
 
+def _lookahead_finder(f, items, dnames):
+    """lookaheads(node) for function f: the `item[:k]` slices (item in `items`) inside node that feed the receiver of a search for one of
+    `dnames` (directly, or through the locals the searched value is put together from)."""
+    def is_find(c):
+        return (isinstance(c, ast.Call) and isinstance(c.func, ast.Attribute) and c.func.attr == 'find' and c.args
+                and isinstance(c.args[0], ast.Name) and c.args[0].id in dnames)
+
+    finds = [c for c in walk_self(f.node) if is_find(c)]
+    recv_names = {x.id for c in finds for x in ast.walk(c.func.value) if isinstance(x, ast.Name)}
+    grew = True
+    while grew:         # locals the searched value is put together from
+        grew = False
+        for st in walk_self(f.node):
+            if isinstance(st, (ast.Assign, ast.AnnAssign, ast.AugAssign)) and getattr(st, 'value', None) is not None:
+                tg = st.targets if isinstance(st, ast.Assign) else [st.target]
+                if any(isinstance(t, ast.Name) and t.id in recv_names for t in tg):
+                    add = {x.id for x in ast.walk(st.value) if isinstance(x, ast.Name)} - recv_names
+                    if add:
+                        recv_names |= add
+                        grew = True
+
+    def lookaheads(node):
+        out = []
+        scopes = []
+        if isinstance(node, (ast.Assign, ast.AnnAssign, ast.AugAssign)):
+            tg = node.targets if isinstance(node, ast.Assign) else [node.target]
+            if any(isinstance(t, ast.Name) and t.id in recv_names for t in tg) and node.value is not None:
+                scopes.append(node.value)
+        for c in walk_self(node):
+            if is_find(c):
+                scopes.append(c.func.value)
+        for sc in scopes:
+            for x in ast.walk(sc):
+                if isinstance(x, ast.Subscript) and isinstance(x.value, ast.Name) and x.value.id in items and isinstance(x.slice, ast.Slice):
+                    out.append(x)
+        return out
+
+    return lookaheads
+
+
+class _Lookahead:
+    """(R11, consumer side) the look-aheads `item[:k]` met on the paths of one method -- also inside a read-only value helper that is
+    handed the item and the delimiter (executed in place: k is evaluated with the caller's facts)."""
+
+    def __init__(self, v, rd, f, items):
+        self.v, self.rd, self.f = v, rd, f
+        self.top = (frozenset(items), frozenset({DELIM}), _lookahead_finder(f, items, {DELIM}))
+        self.seen = []
+
+    def scope(self, env):
+        return env.ghost.get('la_scope') or self.top
+
+    def helper_scope(self, env, call, callee):
+        items, dnames, _f = self.scope(env)
+        bound = _bind_call(callee, call) or {}
+        it2 = {nm for nm, x in bound.items() if isinstance(x, ast.Name) and x.id in items}
+        d2 = {nm for nm, x in bound.items() if isinstance(x, ast.Name) and x.id in dnames}
+        return frozenset(it2), frozenset(d2)
+
+    def has_sites(self):
+        """Does the method (or a helper it hands an item to) contain a look-ahead at all?"""
+        def sites(f, sc, depth):
+            if any(sc[2](s) for s in walk_self(f.node) if isinstance(s, (ast.stmt, ast.expr))):
+                return True
+            if depth >= 2:
+                return False
+            for c in walk_self(f.node):
+                g = _value_helper(self.rd, c, (), f) if isinstance(c, ast.Call) else None
+                if g is not None:
+                    bound = _bind_call(g, c) or {}
+                    it2 = {nm for nm, x in bound.items() if isinstance(x, ast.Name) and x.id in sc[0]}
+                    d2 = {nm for nm, x in bound.items() if isinstance(x, ast.Name) and x.id in sc[1]}
+                    if it2 and d2 and sites(g, (it2, d2, _lookahead_finder(g, it2, d2)), depth + 1):
+                        return True
+            return False
+        return sites(self.f, self.top, 0)
+
+    def wants_helper(self, env, call, callee):
+        it2, d2 = self.helper_scope(env, call, callee)
+        return bool(it2 and d2)
+
+    def enter_helper(self, caller_env, env, bound, callee, call):
+        saved = (env.ghost.get('la_scope'), env.ghost.get('helper_model'))
+        it2, d2 = self.helper_scope(caller_env, call, callee)
+        env.ghost['la_scope'] = (it2, d2, _lookahead_finder(callee, it2, d2))
+        env.ghost['helper_model'] = self
+        return saved
+
+    def leave_helper(self, env, saved):
+        for k, val in zip(('la_scope', 'helper_model'), saved):
+            if val is None:
+                env.ghost.pop(k, None)
+            else:
+                env.ghost[k] = val
+
+    def pieces(self, env, e):
+        return None
+
+    def on_node(self, env, n, label):
+        items, _d, lookaheads = self.scope(env)
+        _mark_items(env, items)
+        if label == 'exc' or n.kind not in ('stmt', 'test'):
+            return
+        for x in lookaheads(n.ast):
+            s = x.slice
+            if s.lower is not None or s.step is not None or s.upper is None:
+                self.v.unknown('%s: look-ahead `%s` is not a prefix `item[:k]` of the next chunk' % (self.f.qual, short(x, 50)))
+                continue
+            k = env.eval(s.upper)
+            if not isinstance(k, Lin) or k.tainted():
+                self.v.unknown('%s: width of the look-ahead `%s` not understood' % (self.f.qual, short(x, 50)))
+                continue
+            self.seen.append((x, k, env.fork()))
+
+
 def _lookahead_slack(run, v, rd):
     """Consumer side.  Returns s such that every look-ahead `item[:k]` of a delimiter search over self._source has
     k <= chunk_size - s proved (the largest such s in {1, 0}); obligations: k >= len(delimiter) - 1 and k <= chunk_size."""
@@ -2187,39 +2691,9 @@ def _lookahead_slack(run, v, rd):
                  and isinstance(x.target, ast.Name)]
         if not loops:
             continue
-        finds = [c for c in walk_self(f.node) if _is_delim_find(c)]
-        recv_names = {x.id for c in finds for x in ast.walk(c.func.value) if isinstance(x, ast.Name)}
-        grew = True
-        while grew:         # locals the searched value is put together from
-            grew = False
-            for st in walk_self(f.node):
-                if isinstance(st, (ast.Assign, ast.AnnAssign, ast.AugAssign)) and getattr(st, 'value', None) is not None:
-                    tg = st.targets if isinstance(st, ast.Assign) else [st.target]
-                    if any(isinstance(t, ast.Name) and t.id in recv_names for t in tg):
-                        add = {x.id for x in ast.walk(st.value) if isinstance(x, ast.Name)} - recv_names
-                        if add:
-                            recv_names |= add
-                            grew = True
         items = {lp.target.id for lp in loops}
-
-        def lookaheads(node):
-            """`item[:k]` slices that feed the receiver of a delimiter search (directly, or through the local searched)."""
-            out = []
-            scopes = []
-            if isinstance(node, (ast.Assign, ast.AnnAssign, ast.AugAssign)):
-                tg = node.targets if isinstance(node, ast.Assign) else [node.target]
-                if any(isinstance(t, ast.Name) and t.id in recv_names for t in tg) and node.value is not None:
-                    scopes.append(node.value)
-            for c in walk_self(node):
-                if _is_delim_find(c):
-                    scopes.append(c.func.value)
-            for sc in scopes:
-                for x in ast.walk(sc):
-                    if isinstance(x, ast.Subscript) and isinstance(x.value, ast.Name) and x.value.id in items and isinstance(x.slice, ast.Slice):
-                        out.append(x)
-            return out
-
-        if not any(lookaheads(s) for s in walk_self(f.node) if isinstance(s, (ast.stmt, ast.expr))):
+        model = _Lookahead(v, rd, f, items)
+        if not model.has_sites():
             continue
         cfg = cfg_of(f, p)
         run.use_cfg(cfg)
@@ -2228,28 +2702,12 @@ def _lookahead_slack(run, v, rd):
             if end == cfg.xexit:
                 continue
             wit = flow.describe_path(cfg, [s[0] for s in steps])
-            seen_here = []
-
-            def on_node(env, n, label):
-                _mark_items(env, items)
-                if label == 'exc' or n.kind not in ('stmt', 'test'):
-                    return
-                for x in lookaheads(n.ast):
-                    s = x.slice
-                    if s.lower is not None or s.step is not None or s.upper is None:
-                        v.unknown('%s: look-ahead `%s` is not a prefix `item[:k]` of the next chunk' % (f.qual, short(x, 50)))
-                        continue
-                    k = env.eval(s.upper)
-                    if not isinstance(k, Lin) or k.tainted():
-                        v.unknown('%s: width of the look-ahead `%s` not understood' % (f.qual, short(x, 50)))
-                        continue
-                    seen_here.append((x, k, env.fork()))
-
+            model.seen = []
             lp = heads.get(start)
             for e0 in _plain_prelude_envs(rd, f, lp if lp is not None else loops[0], start == cfg.entry):
-                for e in run_steps(e0, cfg, steps, on_node):
+                for e in _run_steps(e0, cfg, steps, model.on_node):
                     pass
-            for (x, k, e) in seen_here:
+            for (x, k, e) in model.seen:
                 n_sites += 1
                 wide = e.prove_le(dl - Lin.const(1), k)
                 v.note(f, 'look-ahead width @%s' % unparse(x),
